@@ -1,0 +1,11 @@
+//go:build verif
+
+package fp
+
+import "github.com/csgura/fp/internal/verifhook"
+
+// VerifSetSpawnHook installs the hook that is offered every runnable the default executors start.
+func VerifSetSpawnHook(h func(run func()) bool) { verifhook.SpawnHook = h }
+
+// VerifSetYieldHook installs the hook called at the instrumented synchronisation points.
+func VerifSetYieldHook(h func(point string)) { verifhook.YieldHook = h }
